@@ -692,7 +692,7 @@ def _replay_resume_file(cex, model, props, bad, tmp):
     cfg = cex["cfg"]
     ref = _aspire_world(cex, model, os.path.join(tmp, "ref.h5"))
     if ref.error is not None or ref.final is None:
-        bad.append(f"C11[resume_constructor]: the reference run failed: {ref.error}")
+        bad.append(f"{'C11' if 'C11' in props else 'C12'}[resume_constructor]: the reference run failed: {ref.error}")
         return {}
     total = ref.ll_calls
     points = range(1, total + 1) if cfg.get("all_crash_points") else [total]
@@ -700,10 +700,36 @@ def _replay_resume_file(cex, model, props, bad, tmp):
     for c in points:
         path = os.path.join(tmp, f"crash{c}.h5")
         w = _aspire_world(cex, model, path, fail_at=c)
-        if w.error is None or w.sampler is None or w.sampler.last_checkpoint_bytes is None:
+        if w.error is None:
             continue
-        res = _aspire_world(cex, model, path, resume=True)
-        compare(ref, res, bad, f"[resume_constructor crash@{c}]")
+        last = w.sampler.last_checkpoint_bytes if w.sampler is not None else None
+        if "C12" in props:
+            import h5py
+
+            if not os.path.exists(path):
+                bad.append(f"C12[crash@{c}]: no checkpoint file")
+            else:
+                with h5py.File(path, "r") as f:
+                    keys = sorted(f.keys())
+                    blob = f["checkpoint"]["state"][...].tobytes() if "checkpoint" in f and "state" in f["checkpoint"] else None
+                if "aspire_config" not in keys:
+                    bad.append(f"C12[crash@{c}]: the interrupted run's file holds no configuration (groups: {keys})")
+                if "flow" not in keys:
+                    bad.append(f"C12[crash@{c}]: the interrupted run's file holds no proposal (groups: {keys})")
+                if blob != last:
+                    bad.append(f"C12[crash@{c}]: the file's checkpoint is not the most recent payload")
+        if last is None:
+            continue
+        try:
+            res = _aspire_world(cex, model, path, resume=True)
+        except (KeyError, ValueError, OSError, AttributeError, TypeError) as e:
+            if "C12" in props:
+                bad.append(f"C12[crash@{c}]: the file is not loadable by Aspire.resume_from_file: {e!r}")
+            if "C11" in props:
+                bad.append(f"C11[resume_constructor crash@{c}]: resume failed: {e!r}")
+            continue
+        if "C11" in props:
+            compare(ref, res, bad, f"[resume_constructor crash@{c}]")
         out.append(c)
     return {"betas": [float(b) for b in ref.sampler.history.beta], "crash_points": out}
 
